@@ -147,3 +147,103 @@ def oklab_to_linear(L, a, b):
 def srgb_gamma(c):
     """linear -> sRGB transfer function, channel in [0,1]"""
     return ite(c <= 0.0031308, 12.92 * c, 1.055 * (smax(c, 0) ** (1.0 / 2.4)) - 0.055)
+
+
+# ---------------------------------------------------------------- CIE XYZ / L*a*b* (D65) and CIEDE2000
+SRGB_XYZ = ((0.4124564, 0.3575761, 0.1804375),
+            (0.2126729, 0.7151522, 0.0721750),
+            (0.0193339, 0.1191920, 0.9503041))
+D65 = (95.047, 100.000, 108.883)
+
+
+def xyz_from_rgb(rgb):
+    r, g, b = [srgb_lin(v / 255.0) for v in rgb]
+    return tuple((r * m[0] + g * m[1] + b * m[2]) * 100 for m in SRGB_XYZ)
+
+
+def cie_f(t):
+    """CIE 1976 f(t) with the customary rounded constants (0.008856, 7.787, 16/116); the exact constants
+    ((6/29)^3, 841/108, 4/29) change L*a*b* by < 5e-5, far below the 0.05 tolerance of the property"""
+    return ite(t > 0.008856, smax(t, 0) ** (1 / 3), (7.787 * t) + (16 / 116))
+
+
+def lab_from_xyz(xyz):
+    fx, fy, fz = [cie_f(v / w) for v, w in zip(xyz, D65)]
+    L = smax(0, smin(100, 116 * fy - 16))
+    return (L, 500 * (fx - fy), 200 * (fy - fz))
+
+
+def hue_deg(b, a):
+    """h' in [0,360) of Sharma et al. eq. (7): atan2(b, a') in degrees, +360 when negative; 0 when both are 0.
+    Written with python branches: under symx the reference forks jointly with the implementation, so that on every
+    joint path both results are straight-line terms (equal by congruence when the code is the CIE formula)."""
+    if a == 0 and b == 0:
+        return 0
+    h = M.atan2(b, a) * 180 / _pm.pi
+    if h < 0:
+        return h + 360
+    return h
+
+
+def conj_(x, y):
+    if isinstance(x, bool) and isinstance(y, bool):
+        return x and y
+    return symx.sbool(x) & symx.sbool(y)
+
+
+def disj_(x, y):
+    if isinstance(x, bool) and isinstance(y, bool):
+        return x or y
+    return symx.sbool(x) | symx.sbool(y)
+
+
+def ciede2000(lab1, lab2):
+    """Sharma, Wu, Dalal (2005), eqs. (2)-(22), kL = kC = kH = 1.  Branch-free (If-terms) so that it adds no paths."""
+    L1, a1, b1 = lab1
+    L2, a2, b2 = lab2
+    C1 = M.sqrt(a1 * a1 + b1 * b1)
+    C2 = M.sqrt(a2 * a2 + b2 * b2)
+    Cb = (C1 + C2) / 2
+    Cb7 = Cb ** 7
+    G = 0.5 * (1 - M.sqrt(Cb7 / (Cb7 + 25 ** 7)))
+    a1p = a1 * (1 + G)
+    a2p = a2 * (1 + G)
+    C1p = M.sqrt(a1p * a1p + b1 * b1)
+    C2p = M.sqrt(a2p * a2p + b2 * b2)
+    h1p = hue_deg(b1, a1p)
+    h2p = hue_deg(b2, a2p)
+    dLp = L2 - L1
+    dCp = C2p - C1p
+    zero = bool(C1p * C2p == 0)
+    d = h2p - h1p
+    if zero:
+        dhp = 0
+    elif d > 180:
+        dhp = d - 360
+    elif d < -180:
+        dhp = d + 360
+    else:
+        dhp = d
+    dHp = 2 * M.sqrt(C1p * C2p) * M.sin(M.radians(dhp / 2))
+    Lbp = (L1 + L2) / 2
+    Cbp = (C1p + C2p) / 2
+    s = h1p + h2p
+    if zero:
+        hbp = s
+    elif -180 <= d <= 180:
+        hbp = s / 2
+    elif s < 360:
+        hbp = (s + 360) / 2
+    else:
+        hbp = (s - 360) / 2
+    T = (1 - 0.17 * M.cos(M.radians(hbp - 30)) + 0.24 * M.cos(M.radians(2 * hbp))
+         + 0.32 * M.cos(M.radians(3 * hbp + 6)) - 0.20 * M.cos(M.radians(4 * hbp - 63)))
+    dth = 30 * M.exp(-(((hbp - 275) / 25) ** 2))
+    Cbp7 = Cbp ** 7
+    RC = 2 * M.sqrt(Cbp7 / (Cbp7 + 25 ** 7))
+    SL = 1 + (0.015 * ((Lbp - 50) ** 2)) / M.sqrt(20 + ((Lbp - 50) ** 2))
+    SC = 1 + 0.045 * Cbp
+    SH = 1 + 0.015 * Cbp * T
+    RT = -M.sin(M.radians(2 * dth)) * RC
+    tL, tC, tH = dLp / SL, dCp / SC, dHp / SH
+    return M.sqrt(tL * tL + tC * tC + tH * tH + RT * tC * tH)
